@@ -67,6 +67,12 @@ func (c *ctl) choices(j Job) []Ev {
 			out = append(out, Ev{K: "req", I: next, A: a})
 		}
 		if j.Rich {
+			out = append(out, Ev{K: "req", I: next, A: 0, Deaf: true})
+		}
+		if holdOK && c.parked < 0 && j.Rich {
+			out = append(out, Ev{K: "req", I: next, A: 0, Hold: true})
+		}
+		if j.Rich {
 			out = append(out, Ev{K: "req", I: next, A: 0, ND: true})
 		}
 	}
@@ -126,6 +132,12 @@ func category(e Ev, c *ctl) (string, int) {
 		if e.ND {
 			return "req-nd", 1
 		}
+		if e.Hold {
+			return "req-hold", 3
+		}
+		if e.Deaf {
+			return "req-deaf-dial", 2
+		}
 		return "req", 5
 	case "pass":
 		return "pass", 6
@@ -179,6 +191,13 @@ func weights(ch []Ev, c *ctl) []int {
 
 func childMain() {
 	runtime.GOMAXPROCS(4)
+	// probe: does the repository have the schedule point connection:locked?
+	func() {
+		c := newCtl()
+		defer c.finish()
+		c.do(Ev{K: "req", I: 0})
+		holdOK = holdSeen
+	}()
 	in := bufio.NewReaderSize(os.Stdin, 1<<20)
 	out := bufio.NewWriter(os.Stdout)
 	emit := func(l Line) {
@@ -212,6 +231,15 @@ func runJob(j Job, emit func(Line)) {
 		}
 	}()
 	play := func(e Ev, nb int) bool {
+		if e.K == "cancel" {
+			c.mu.Lock()
+			t := c.threads[e.I]
+			e.Deaf = t != nil && t.deaf // the kind of cancel is decided by how the thread was requested
+			c.mu.Unlock()
+		}
+		if e.K == "req" && e.Hold && !holdOK {
+			e.Hold = false // the schedule point does not exist here: an ordinary request
+		}
 		emit(Line{Ev: &e, NB: nb})
 		o := c.do(e)
 		emit(Line{Obs: &o})
@@ -350,6 +378,9 @@ func (r *runner) run(j Job) (ops []Ev, obs []Obs, nbs []int) {
 func evTerm(e Ev) string {
 	switch e.K {
 	case "req":
+		if e.Hold {
+			return fmt.Sprintf("XHoldReq %s %s %s", vh.Nat(e.I), vh.Nat(e.A), vh.Bool(!e.ND))
+		}
 		return fmt.Sprintf("XE (EReq %s %s %s)", vh.Nat(e.I), vh.Nat(e.A), vh.Bool(!e.ND))
 	case "pass":
 		return "XE (EPass " + vh.Nat(e.I) + ")"
@@ -363,6 +394,9 @@ func evTerm(e Ev) string {
 	case "release":
 		return "XE (ERelease " + vh.Nat(e.I) + ")"
 	case "cancel":
+		if e.Deaf {
+			return "XCancelDeaf " + vh.Nat(e.I)
+		}
 		return "XE (ECancel " + vh.Nat(e.I) + ")"
 	case "closego":
 		return "XCloseGo " + vh.Nat(e.I)
